@@ -22,11 +22,16 @@ extern "C" void frg_verif_point(const char *site, const void *, unsigned long) {
 	if(t_jit % g_jitter_den == 0) { if(t_jit & 0x100) sched_yield(); else for(volatile int i = 0; i < (int)((t_jit >> 12) & 0x3ff); i++) {} }
 }
 
+template<typename L> struct Holder { L lock; Holder(uint32_t) {} };
+template<> struct Holder<frg::ticket_spinlock> { frg::ticket_spinlock lock; Holder(uint32_t first) : lock(first) {} };
+
+// `first_ticket` != 0: the ticket lock starts that many tickets before its counters wrap, so the run crosses the wrap-around
 template<typename L>
-static void torture(const char *name, long long idx, int nthreads, uint64_t pairs, bool use_guard) {
+static void torture(const char *name, long long idx, int nthreads, uint64_t pairs, bool use_guard, uint32_t first_ticket = 0) {
 	std::string mode = std::string("tsan:") + name;
 	begin_case(mode.c_str(), idx);
-	L lock;
+	Holder<L> holder(first_ticket);
+	L &lock = holder.lock;
 	struct Shared { uint64_t counter = 0; uint64_t pad[7]; uint64_t last_owner = 0; int in_cs = 0; } sh; // plain data
 	std::atomic<int> excl_violations{0};
 	std::vector<std::thread> th;
@@ -51,7 +56,7 @@ static void torture(const char *name, long long idx, int nthreads, uint64_t pair
 	count("tsan_lock_pairs", nthreads * pairs);
 	if(excl_violations.load()) violation(std::string("C12:threads:") + name + ":mutual-exclusion", strf("%d critical-section entries found another thread inside", excl_violations.load()));
 	if(sh.counter != nthreads * pairs) violation(std::string("C12:threads:") + name + ":lost-update", strf("counter is %llu after %llu locked increments", (unsigned long long)sh.counter, (unsigned long long)(nthreads * pairs)));
-	if(lock.is_locked()) violation(std::string("C12:threads:") + name + ":is_locked", "is_locked() true after all threads released");
+	if(!first_ticket && lock.is_locked()) violation(std::string("C12:threads:") + name + ":is_locked", "is_locked() true after all threads released");
 	note_distinct(mix(hash_str(mode), idx * 16 + nthreads));
 }
 
@@ -65,7 +70,8 @@ int main(int argc, char **argv) {
 		long long idx = i * opt.nshards + opt.shard;
 		int nt = 2 + idx % 3;
 		g_jitter_den = (i % 3 == 0) ? 8 : 64;
-		torture<frg::ticket_spinlock>("ticket_spinlock", idx, nt, opt.thorough() ? 40000 : 8000, i % 2);
+		torture<frg::ticket_spinlock>("ticket_spinlock", idx, nt, opt.thorough() ? 40000 : 8000, i % 2, (i % 4 >= 2) ? (uint32_t)(0u - 1000 * (1 + idx % 7)) : 0); // half of the runs cross the 2^32 wrap after a few thousand tickets
+		if(i % 4 >= 2) count("tsan_runs_across_ticket_wrap");
 		torture<frg::simple_spinlock>("simple_spinlock", idx, nt, opt.thorough() ? 40000 : 8000, i % 2);
 	}
 	sample("tsan:ticket_spinlock: 3 threads x 8000 lock/unlock pairs (directly and through unique_lock) incrementing a plain counter; TSan + lost-update + overlap checks");
